@@ -1123,6 +1123,13 @@ class WebSocketProtocol13(WebSocketProtocol):
                 await self._receive_frame()
         except StreamClosedError:
             self._abort()
+        except Exception:
+            # Malformed data that is not caught closer to its source (e.g. a
+            # close reason that is not valid UTF-8) or an error raised by an
+            # asynchronous on_message: drop the connection and still deliver
+            # the close notification below.
+            self.handler.log_exception(*sys.exc_info())
+            self._abort()
         self.handler.on_ws_connection_close(self.close_code, self.close_reason)
 
     async def _read_bytes(self, n: int) -> bytes:
